@@ -132,6 +132,9 @@ type Machine struct {
 	forkSites map[string]int
 	peers     map[string][]*sym.Term
 	mapOrderSeed int
+	snapSeq      int
+	havocFamily  int
+	havocCalls   int
 	mapRangeNo   int
 	inInit    bool
 	implCache map[string]bool
@@ -277,6 +280,9 @@ func (m *Machine) RunPath(entry *ssa.Function, item workItem) (res *PathResult) 
 	m.hashers = nil
 	m.peers = nil
 	m.mapOrderSeed, m.mapRangeNo = -1, 0
+	m.snapSeq = 0
+	m.havocCalls = 0
+	m.watchMaps = nil
 	m.depth = 0
 	m.res = &PathResult{}
 	res = m.res
